@@ -2,9 +2,10 @@ CONSTANTS
   Limit = 65535
   NLines = 3
   MaxSteps = 60
-  MaxV = 300
+  MaxV = 120
   Tset = 1
   WithIntr = TRUE
+  IntrWin = 60
 INIT VInit
 NEXT VNextA
 INVARIANTS Refines NoRunWithErrors VTypeOK VVarsTyped Linked FramesAtLineStart SliceInvariant
